@@ -23,19 +23,16 @@ from props import c19_real as R
 
 WINDOW = (G.A_LO, G.A_HI, G.M_LO, G.M_HI)
 
+# passive LOGICAL and (non-dimensioning) INTEGER arguments: the pinned generate_adjoint_test emits
+# `call random_number(flag)` / `flag * flag` (fixes/C19-harness-nonreal-arguments.patch)
+HARNESS_PROBE = G.Kernel(
+    "module tl_mod\n  implicit none\ncontains\nsubroutine tl_kern(a, b, n, flag, m)\n"
+    "  integer, intent(in) :: n, m\n  logical, intent(in) :: flag\n  real, intent(inout) :: a(n), b(n)\n  integer :: i\n"
+    "  do i = 1, n, 2\n    if (flag) then\n      a(i) = a(i) + 2.0*b(i)\n    else\n      a(i) = b(i+m-1)\n    end if\n  end do\n"
+    "end subroutine tl_kern\nend module tl_mod\n", ["a", "b"], [], {}, [], [], [], False, False, [])
+
 
 # ---------------------------------------------------------------------------------------------
-def matrices(kern, res, locs):
-    """(M_tl, M_ad) as lists of rows; row l = image of the unit vector e_l restricted to locs"""
-    b = [[list(l), v] for l, v in R.bindings(kern, res.names)]
-    q = [list(l) for l in locs]
-    out = driver("C19", [sx(["mfmatrix", res.tl_minif, b, q]), sx(["mfmatrix", res.ad_minif, b, q])])
-    for o in out:
-        if not o.startswith("("):
-            raise common.Infra("C19 driver mfmatrix: " + o[:200])
-    return [common.parse_sx(o) for o in out]
-
-
 def transpose_defect(mtl, mad, locs):
     """None, or the first entry where adjoint matrix != transpose of the TL matrix"""
     n = len(locs)
@@ -48,97 +45,119 @@ def transpose_defect(mtl, mad, locs):
     return None
 
 
-def relevant_locs(kern, res, rng):
-    """locations to probe: everything the two programs touch (asked of the model when both
-    are in linear form) plus a random sample of the declared window; the whole window otherwise"""
-    allv = R.active_locs(kern, res.names, *WINDOW)
-    if res.tl_form is None or res.ad_form is None:
-        return allv if len(allv) <= 130 else sorted(rng.sample(allv, 130))
-    b = [[list(l), v] for l, v in R.bindings(kern, res.names)]
-    out = driver("C19", [sx(["touched", res.tl_form, b]), sx(["touched", res.ad_form, b])])
-    args = {res.names.id(n) for n in kern.scalars + kern.arrays1 + kern.arrays2}
-    rank = {res.names.id(n): r for ns, r in ((kern.scalars, 0), (kern.arrays1, 1), (kern.arrays2, 2)) for n in ns}
-    got = set()
+def _c19(lines):
+    out = driver("C19", lines)
     for o in out:
-        for l in common.parse_sx(o):
-            if l[0] in args:
-                got.add(tuple(l[: rank[l[0]] + 1]))
-    extra = rng.sample(allv, min(12, len(allv)))
-    return sorted(got | set(extra))
-
-
-def passive_changed(kern, res, rng):
-    """run the real adjoint on random active values; any passive ARGUMENT that changed"""
-    act = {l: rng.randint(-4, 4) for l in R.active_locs(kern, res.names, *WINDOW) if rng.random() < 0.3}
-    b = R.bindings(kern, res.names, act)
-    q, expect = [], []
-    for name, v in kern.passive_vals.items():
-        if isinstance(v, dict):
-            for i, x in v.items():
-                q.append((res.names.id(name), i))
-                expect.append(x)
-        else:
-            q.append((res.names.id(name),))
-            expect.append(v)
-    got = minif.model_exec([(res.ad_minif, b, q)])[0]
-    for loc, g, e in zip(q, got, expect):
-        if g != e:
-            return {"passive_location": list(loc), "observed": g, "expected": e}
-    return None
-
-
-def sem_agrees(kern, res, rng):
-    """model semantics of the (preprocessed) TL program = MiniF semantics of the same program"""
-    locs = R.active_locs(kern, res.names, *WINDOW)
-    locs += [(res.names.id(n),) for n in kern.locals]
-    act = {l: rng.randint(-4, 4) for l in locs}
-    b = R.bindings(kern, res.names, act)
-    mf = minif.model_exec([(res.tlpp_minif, b, locs)])[0]
-    mo = driver("C19", [sx(["sem", res.tl_form, [[list(l), v] for l, v in b], [list(l) for l in locs]])])[0]
-    return common.parse_sx(mo) == mf, mo[:200], str(mf)[:200]
-
-
-def model_view(kern, res):
-    """(model adjoint text, real adjoint text, safe?) for a kernel in linear form"""
-    b = [[list(l), v] for l, v in R.bindings(kern, res.names)]
-    locs = [res.names.id(n) for n in kern.active if n in kern.locals]
-    out = driver("C19", [sx(["adjroutine", locs, res.tl_form]), sx(["safe", res.tl_form, b])])
-    return out[0], sx(res.ad_form), out[1] == "1"
-
-
-def evaluate(kern, rng, want_harness=False, use_api=True):
-    """Everything the check looks at for one kernel.  Returns a dict:
-    status, structural (None/True/False), sem_ok, safe, defect (property failure or None), …"""
-    out = {"status": None, "structural": None, "sem_ok": None, "safe": None, "defect": None, "why_no_form": None}
-    res = R.pipeline(kern.src, kern.active, want_test=want_harness, use_api=use_api)
-    out["status"], out["exc"] = res.status, res.exc
-    out["res"] = res
-    if res.status != "ok":
-        return out
-    if not res.api_matches:
-        out["defect"] = {"kind": "generate_adjoint_str differs from its own steps"}
-        return out
-    if res.tl_form is not None and res.ad_form is not None:
-        mo, im, safe = model_view(kern, res)
-        out["structural"], out["safe"], out["model_adjoint"], out["real_adjoint"] = (mo == im), safe, mo, im
-        ok, a, b = sem_agrees(kern, res, rng)
-        out["sem_ok"] = ok
-        if not ok:
-            out["sem_pair"] = (a, b)
-    else:
-        out["why_no_form"] = res.form_why
-    locs = relevant_locs(kern, res, rng)
-    mtl, mad = matrices(kern, res, locs)
-    d = transpose_defect(mtl, mad, [list(l) for l in locs])
-    if d is None:
-        d = passive_changed(kern, res, rng)
-        if d is not None:
-            d["kind"] = "passive variable changed by the adjoint"
-    else:
-        d["kind"] = "adjoint is not the transpose"
-    out["defect"] = d
-    out["nontrivial"] = any(any(x != 0 for j, x in enumerate(row) if j != i) for i, row in enumerate(mtl))
+        if o.startswith("bad-"):
+            raise common.Infra("C19 driver: " + o)
     return out
+
+
+def evaluate_batch(kerns, rng, use_api=None):
+    """Everything the check looks at, for a list of kernels (driver calls are batched).  Returns one
+    dict per kernel: status, structural (None/True/False), sem_ok, safe, defect (property failure or
+    None), nontrivial, res, …"""
+    use_api = use_api or [True] * len(kerns)
+    evs = []
+    for kern, api in zip(kerns, use_api):
+        ev = {"status": None, "structural": None, "sem_ok": None, "safe": None, "defect": None, "why_no_form": None,
+              "nontrivial": False}
+        res = R.pipeline(kern.src, kern.active, use_api=api)
+        ev["status"], ev["exc"], ev["res"] = res.status, res.exc, res
+        ev["live"] = res.status == "ok"
+        if ev["live"] and not res.api_matches:
+            ev["defect"], ev["live"] = {"kind": "generate_adjoint_str differs from its own steps"}, False
+        ev["formed"] = ev["live"] and res.tl_form is not None and res.ad_form is not None
+        if ev["live"] and not ev["formed"]:
+            ev["why_no_form"] = res.form_why
+        evs.append(ev)
+    live = [(k, e) for k, e in zip(kerns, evs) if e["live"]]
+    # round 0: values of the passive prelude (passive temporaries assigned at the top of the routine)
+    jobs, who = [], []
+    for k, e in live:
+        res = e["res"]
+        e["bind"] = R.bindings(k, res.names)
+        if e["formed"] and res.prelude:
+            q = [(st[1],) for st in res.prelude if st[0] == "assign"]
+            jobs.append((["seqs"] + res.prelude, e["bind"], q))
+            who.append((e, q))
+    for (e, q), vals in zip(who, minif.model_exec(jobs) if jobs else []):
+        e["bind"] = e["bind"] + list(zip(q, vals))
+    # round 1: the model's view (adjoint, safe, touched, sem) and MiniF runs (sem, passive arguments)
+    lines, idx, jobs, jdx = [], [], [], []
+    for k, e in live:
+        res = e["res"]
+        b = [[list(l), v] for l, v in e["bind"]]
+        allv = R.active_locs(k, res.names, *WINDOW)
+        if e["formed"]:
+            locs = allv + [(res.names.id(n),) for n in k.locals]
+            act = [(l, rng.randint(-4, 4)) for l in locs]
+            bb = b + [[list(l), v] for l, v in act]
+            lids = [res.names.id(n) for n in k.active if n in k.locals]
+            idx.append((e, len(lines)))
+            lines += [sx(["adjroutine", lids, res.tl_form]), sx(["safe", res.tl_form, b]),
+                      sx(["touched", res.tl_form, b]), sx(["touched", res.ad_form, b]),
+                      sx(["sem", res.tl_form, bb, [list(l) for l in locs]])]
+            jdx.append((e, "sem", len(jobs)))
+            jobs.append((res.tlpp_minif, e["bind"] + act, locs))
+        act = [(l, rng.randint(-4, 4)) for l in allv if rng.random() < 0.3]
+        q, expect = [], []
+        for name, v in k.passive_vals.items():
+            for i, x in (v.items() if isinstance(v, dict) else [(None, v)]):
+                q.append((res.names.id(name),) if i is None else (res.names.id(name), i))
+                expect.append(x)
+        e["passive_q"], e["passive_expect"] = q, expect
+        jdx.append((e, "passive", len(jobs)))
+        jobs.append((res.ad_minif, R.bindings(k, res.names) + act, q))
+    out = _c19(lines) if lines else []
+    mf = minif.model_exec(jobs) if jobs else []
+    for e, i in idx:
+        res = e["res"]
+        e["model_adjoint"], e["real_adjoint"] = out[i], sx(res.ad_form)
+        e["structural"] = out[i] == e["real_adjoint"]
+        e["safe"] = out[i + 1] == "1"
+        e["touched"] = [common.parse_sx(out[i + 2]), common.parse_sx(out[i + 3])]
+        e["sem_model"] = common.parse_sx(out[i + 4])
+    for e, what, j in jdx:
+        if what == "sem":
+            e["sem_ok"] = e["sem_model"] == mf[j]
+            if not e["sem_ok"]:
+                e["sem_pair"] = (str(e["sem_model"])[:300], str(mf[j])[:300])
+        else:
+            for loc, g, x in zip(e["passive_q"], mf[j], e["passive_expect"]):
+                if g != x:
+                    e["passive_defect"] = {"kind": "passive variable changed by the adjoint",
+                                           "passive_location": list(loc), "observed": g, "expected": x}
+                    break
+    # round 2: matrices of the ORIGINAL TL routine and of the REAL adjoint on unit vectors
+    lines, idx = [], []
+    for k, e in live:
+        res = e["res"]
+        allv = R.active_locs(k, res.names, *WINDOW)
+        if e["formed"]:
+            args = {res.names.id(n) for n in k.scalars + k.arrays1 + k.arrays2}
+            rank = {res.names.id(n): r for ns, r in ((k.scalars, 0), (k.arrays1, 1), (k.arrays2, 2)) for n in ns}
+            got = {tuple(l[: rank[l[0]] + 1]) for t in e["touched"] for l in t if l[0] in args}
+            locs = sorted(got | set(rng.sample(allv, min(12, len(allv)))))
+        else:
+            locs = allv if len(allv) <= 130 else sorted(rng.sample(allv, 130))
+        e["locs"] = [list(l) for l in locs]
+        b = [[list(l), v] for l, v in R.bindings(k, res.names)]
+        idx.append((e, len(lines)))
+        lines += [sx(["mfmatrix", res.tl_minif, b, e["locs"]]), sx(["mfmatrix", res.ad_minif, b, e["locs"]])]
+    out = _c19(lines) if lines else []
+    for e, i in idx:
+        mtl, mad = common.parse_sx(out[i]), common.parse_sx(out[i + 1])
+        d = transpose_defect(mtl, mad, e["locs"])
+        if d is not None:
+            d["kind"] = "adjoint is not the transpose"
+        e["defect"] = d or e.get("passive_defect")
+        e["nontrivial"] = any(any(x != 0 for j, x in enumerate(row) if j != i2) for i2, row in enumerate(mtl))
+    return evs
+
+
+def evaluate(kern, rng, use_api=True):
+    return evaluate_batch([kern], rng, [use_api])[0]
 
 
 def harness_verdict(kern, res):
@@ -189,15 +208,13 @@ def run(chk):
     findings = common.known_findings("C19")
     rng = chk.rng
     thorough = chk.tier == "thorough"
-    n_cases = 600 if thorough else 55
-    n_harness = 120 if thorough else 6
+    n_cases = 600 if thorough else 45
+    n_harness = 120 if thorough else 4
     n_refused = 60 if thorough else 12
     dist = {"accepted": 0, "refused": 0, "structural": 0, "outside_model": 0, "unsafe_known": 0, "harness_run": 0,
             "features": {}}
 
-    def handle(kern, origin):
-        dist["n"] = dist.get("n", 0) + 1
-        ev = evaluate(kern, rng, use_api=(origin != "generated" or dist["n"] % 4 == 0))
+    def handle(kern, origin, ev):
         case = {"src": kern.src, "passive": kern.payload()["passive_vals"]}
         if ev["status"] == "refused":
             dist["refused"] += 1
@@ -213,21 +230,17 @@ def run(chk):
         dist["accepted"] += 1
         for f in kern.features:
             dist["features"][f] = dist["features"].get(f, 0) + 1
-        agreed = ev["structural"] is not False and ev["sem_ok"] is not False
-        chk.case(case, nontrivial=bool(ev.get("nontrivial")), agreed=agreed and ev["structural"] is True)
+        chk.case(case, nontrivial=bool(ev.get("nontrivial")), agreed=ev["structural"] is True and ev["sem_ok"] is True)
         if ev["structural"] is None:
             dist["outside_model"] += 1
         elif ev["structural"]:
             dist["structural"] += 1
         if ev["defect"] is not None:
-            fid = classify(kern, ev, findings)
-            if fid is not None:
+            if classify(kern, ev, findings) is not None:
                 dist["unsafe_known"] += 1
             else:
                 chk.violation(dict(kern.payload(), kind="failing-input", origin=origin, observed=ev["defect"],
                                    expected="adjoint matrix = transpose of the TL matrix; passive arguments unchanged"))
-        elif ev["structural"] and ev["safe"] is False:
-            pass        # unsafe by the model's criterion but numerically harmless here (e.g. zero coefficient)
         if ev["structural"] is False:
             chk.correspondence_broken("real adjoint differs from C19.adjointRoutine", kern.payload(),
                                       ev["model_adjoint"], ev["real_adjoint"])
@@ -235,14 +248,18 @@ def run(chk):
             chk.correspondence_broken("C19.sem differs from MiniF.exec on the TL program", kern.payload(), *ev["sem_pair"])
 
     # corpus first
-    for fn, p in corpus_cases():
-        handle(G.Kernel.from_payload(p), "corpus/" + fn)
-    # seeded kernels
+    cases = [(G.Kernel.from_payload(p), "corpus/" + fn) for fn, p in corpus_cases()]
+    for (kern, origin), ev in zip(cases, evaluate_batch([c[0] for c in cases], rng)):
+        handle(kern, origin, ev)
+    # seeded kernels, in batches
     gen = G.KGen(rng)
-    for _ in range(n_cases):
-        handle(gen.kernel(), "generated")
-        if len(chk.violations) >= 3:
-            break
+    done = 0
+    while done < n_cases and len(chk.violations) < 3:
+        batch = [gen.kernel() for _ in range(min(25, n_cases - done))]
+        flags = [(done + i) % 4 == 0 for i in range(len(batch))]
+        for kern, ev in zip(batch, evaluate_batch(batch, rng, flags)):
+            handle(kern, "generated", ev)
+        done += len(batch)
     # kernels that must be refused, by the real code and by the linear-form exporter
     for _ in range(n_refused):
         what, src, active = G.refused_kernel(rng)
@@ -258,10 +275,10 @@ def run(chk):
     # the compiled harness: real-only argument lists (valid on the pinned tree) and mixed ones
     hgen_real = G.KGen(rng, real_only=True, allow_unsafe=False)
     hgen_mixed = G.KGen(rng, real_only=False, allow_unsafe=False)
-    for k in range(n_harness):
+    for k in range(-1, n_harness):
         if chk.violations:
             break
-        kern = (hgen_real if k % 3 else hgen_mixed).kernel()
+        kern = HARNESS_PROBE if k < 0 else (hgen_real if k % 3 else hgen_mixed).kernel()
         res = R.pipeline(kern.src, kern.active, want_test=True)
         if res.status != "ok":
             continue
